@@ -246,7 +246,7 @@ def run(ctx):
         if kind in ('F', 'D'):
             spec = zoo.float_spec(rng, n=N, d=D, dt=kind)
         else:
-            spec = zoo.int_spec(rng, n=N, d=D)
+            spec = zoo.int_spec(rng, n=N, d=D, res=int(rng.choice([1024, 4096, 65536])), width=16)
             if kind == 'I-mixed':
                 spec['widths'] = [16, 32, 16, 16, 32, 16, 16, 32]
         raw, lay = fcsgen.build(spec)
